@@ -725,4 +725,7 @@ theorem reachableO_run (cfg : Cfg) (evs : List Ev) : ∀ s own, ReachableO cfg s
 def evsStale : List Ev := [.acquireBegin 0 7, .acquireEnd 0, .fsEvent 1, .fsEvent 1, .jobGone 7, .reclaim 1 7, .release 0 7,
                            .acquireBegin 0 7, .acquireEnd 0, .acquireBegin 1 8]
 
+/-- process 0 takes the token for job 7 and dies; the job runs on. -/
+def evsCrash : List Ev := [.acquireBegin 0 7, .acquireEnd 0, .drop 0]
+
 end XpmVerif.FileTokens
